@@ -20,7 +20,7 @@ pub static PROP: Prop = Prop {
     rule: "bitmaps = (a) encoded symbols of all 48 sizes with generated messages, (b) arbitrary w x h bool arrays with a dark top-left module (w, h <= 64 quick / <= 177 thorough, density 5-95 %), (c) structured shapes from a small combinator (filled rectangles, rings, checkerboards, diagonal staircases, nested islands, inverted regions); oracle = independent even-odd rasteriser with SVG/PDF semantics (segments axis-parallel and non-zero, Move only after Close and relative to the start of the sub-path just closed, closing edge axis-parallel, all coordinates inside [0,w]x[0,h], last sub-path closed, fill equals the bitmap exactly), pixels() equals the row-major list of dark coordinates, unicode() decodes back to the bitmap inside a one-module light border; non-trivial = the dark region has >= 2 connected components OR >= 1 hole OR a diagonal contact (flood fill in the harness); distinct by bitmap",
     assumptions: &["path() is only specified for bitmaps with a dark top-left module (start point is the top-left corner); an all-light bitmap must give an empty path", "a Close reached at the sub-path's start point (zero-length closing line) is accepted, it renders identically"],
     extra: super::no_extra,
-    fuzz_runs: 50000,
+    fuzz_runs: 200000,
 };
 
 fn convert(p: &[PathSegment]) -> Vec<Seg> {
